@@ -63,6 +63,21 @@ func ZZ_C10_UniqueReferences() {
 			if rec != nil && rec.ChargingFunctionRecord != nil && rec.ChargingFunctionRecord.ChargingID != nil {
 				vx.Assert("it is the record the first create opened", rec.ChargingFunctionRecord.ChargingID.Value == int64(r1.ChargingId))
 			}
+			// ... and an update addressed to it acts on that record and on no other
+			// (both sessions are still open; the second reference may extend the
+			// first as a string when both belong to one subscriber)
+			if supi1 == supi2 && len(loc2) > len(zzRefPrefix) {
+				ref2 := loc2[len(zzRefPrefix):]
+				before1, before2 := len(zzUsageList(ue, ref1)), len(zzUsageList(ue, ref2))
+				u, _ := zzUsageInd("upd", 1, 1, 1)
+				zzSmallUsage(&u)
+				c3 := &gin.Context{}
+				p.HandleChargingdataUpdate(c3, models.ChfConvergedChargingChargingDataRequest{SubscriberIdentifier: supi1,
+					MultipleUnitUsage: []models.ChfConvergedChargingMultipleUnitUsage{u}}, ref1)
+				vx.Assert("update addressed to the first reference answered 200", vx.HTTPStatus(c3) == 200)
+				vx.Assert("the update acts on the record of the session it addresses", len(zzUsageList(ue, ref1)) == before1+1)
+				vx.Assert("and on no other session's record", len(zzUsageList(ue, ref2)) == before2)
+			}
 		}
 	}
 }
